@@ -29,6 +29,7 @@ macro_rules! dispatch {
             "C08" => runner::$f::<props::c08::P>($($arg),*),
             "C09" => runner::$f::<props::c09::P>($($arg),*),
             "C17" => runner::$f::<props::c17::P>($($arg),*),
+            "C10" => runner::$f::<props::c10::P>($($arg),*),
             "C12" => runner::$f::<props::c12::P>($($arg),*),
             "C13" => runner::$f::<props::c13::P>($($arg),*),
             "C15" => runner::$f::<props::c15::P>($($arg),*),
